@@ -16,12 +16,14 @@ def _lit(rng, clock, v):
 
 
 def gen_program(rng, clock=None, n_events=None, with_bad=True, with_cancel=True, horizon=None, faults=False,
-                warm=None, beyond=True, bigint=False, initial=True):
+                warm=None, beyond=True, bigint=False, initial=True, start_at=None):
     clock = clock or rng.choice(["float", "int", "duration"])
     length = horizon or rng.choice([10, 20, 50])
     start = rng.choice([0, 0, 0, 5]) if clock != "duration" else 0
     if bigint and clock == "int" and rng.random() < 0.25:
         start = 2 ** 60 + rng.randint(0, 3)        # integer clocks far beyond 2**53 (e.g. nanosecond time stamps)
+    if start_at is not None:
+        start = start_at       # e.g. an epoch time: sub-second gaps are then below 1e-9 relative to the clock
     warmup = warm if warm is not None else rng.choice([0, 0, 2, 5, length // 2, length])
     n = n_events or rng.randint(5, 40)
     step = rng.choice([1, 1, 2, 0.5, 0.25]) if clock != "int" else rng.choice([1, 1, 2, 3])
@@ -139,7 +141,8 @@ def add_streams(rng, prog, n_draw=6):
     if rng.random() < 0.5:
         prog["streams"][1] = {"name": "s2", "via": "info"}      # the 'default' stream of an argument-less StreamInformation()
     dists = [["DistExponential", [rng.choice([0.5, 1.0, 2.0])]], ["DistUniform", [0.0, rng.choice([1.0, 3.0])]],
-             ["DistTriangular", [0.0, 1.0, 2.0]], ["DistGamma", [rng.choice([0.5, 2.0]), 1.0]], ["DistNormalTrunc", [1.0, 1.0, 0.0, 3.0]]]
+             ["DistTriangular", [0.0, 1.0, 2.0]], ["DistGamma", [rng.choice([0.5, 2.0]), 1.0]], ["DistNormalTrunc", [1.0, 1.0, 0.0, 3.0]],
+             ["DistLogNormal", [0.0, 0.5]], ["DistLogNormal", [0.0, 0.5]]]      # (keeps a spare normal deviate between draws)
     tags = list(prog["handlers"].keys())
     n = 0
     for tag in tags:
